@@ -306,13 +306,11 @@ class Sym:
         d = self - b
         if d.is_const():
             v = d.const_value()
-            return SymBool(
-                None,
-                {"eq": v == 0, "ne": v != 0, "lt": v < 0, "le": v <= 0, "gt": v > 0, "ge": v >= 0}[op],
-            )
-        x = d.z3()
+            return numpy.bool_({"eq": v == 0, "ne": v != 0, "lt": v < 0, "le": v <= 0, "gt": v > 0, "ge": v >= 0}[op])
+        # like numpy's object loops (OO->?), a comparison is decided on the spot: fork here
+        x = _cp_to_z3(d.num) if d.den == _CP_ONE else d.z3()
         t = {"eq": x == 0, "ne": x != 0, "lt": x < 0, "le": x <= 0, "gt": x > 0, "ge": x >= 0}[op]
-        return SymBool(t, None, d.tainted)
+        return numpy.bool_(ENGINE.decide(t, tainted=d.tainted))
 
     def __eq__(self, o):  # type: ignore
         return self._cmp(o, "eq")
@@ -333,6 +331,14 @@ class Sym:
         return self._cmp(o, "ge")
 
     __hash__ = None  # type: ignore
+
+    def truth(self) -> "SymBool":
+        """Non-deciding truth value (x != 0) as a SymBool."""
+        if self.is_const():
+            return SymBool(None, self.const_value() != 0)
+        if not self.num:
+            return SymBool(None, False)
+        return SymBool(_cp_to_z3(self.num) != 0, None, self.tainted)
 
     def __bool__(self):
         if self.is_const():
@@ -526,7 +532,7 @@ class SymBool:
         if isinstance(o, (bool, numpy.bool_)):
             return SymBool(None, bool(o))
         if isinstance(o, Sym):
-            return o != 0
+            return o.truth()
         return None
 
     def _comb(self, o, f, cf):
@@ -604,6 +610,9 @@ class Engine:
         self.deadline: Optional[float] = None
         self.havoc_counter = 0
         self.atom_counter = 0
+        self.path_cache: Dict[Any, Any] = {}
+        self.decided: Dict[int, bool] = {}
+        self._keep: List[Any] = []
 
     def reset_stats(self):
         self.stats = {
@@ -687,11 +696,21 @@ class Engine:
             return True
         if z3.is_false(t):
             return False
+        tid = t.get_id()
+        hit = self.decided.get(tid)
+        if hit is not None:
+            return hit
         if tainted:
             self.event("havoc-branch", str(t)[:200])
         if self.deadline is not None and time.time() > self.deadline:
             raise PathAbort("time budget")
         self.stats["decisions"] += 1
+        val = self._decide(t)
+        self.decided[tid] = val
+        self._keep.append(t)
+        return val
+
+    def _decide(self, t) -> bool:
         if self.pos < len(self.prefix):
             val = self.prefix[self.pos]
             self.pos += 1
@@ -804,6 +823,9 @@ class Engine:
             self.events = []
             self.havoc_counter = 0
             self.atom_counter = 0
+            self.path_cache = {}
+            self.decided = {}
+            self._keep = []
             self.deadline = t_end
             self.solver = z3.Solver()
             self.solver.set("timeout", self.query_timeout_ms)
